@@ -9,6 +9,7 @@ from . import ftlib as F
 
 ID = "C08"
 CHECKER = "chk_filter"
+THEOREMS = ['C08_split_core', 'C08_split_variants', 'C08_unc_quadrature_core', 'C08_unc_quadrature_variants', 'C08_removed_is_lowr_transform', 'C08_beyond_cutoff_irrelevant', 'C08_beyond_cutoff_irrelevant_variants', 'C08_beyond_cutoff_irrelevant_raw', 'C08_beyond_cutoff_irrelevant_wrap_real', 'C08_zero_lowr_untouched', 'C08_returned_is_transform_of_corrected', 'C08_returned_is_transform_of_corrected_S', 'C08_returned_is_transform_of_corrected_all']
 RULE = ("all 12 variants x cutoffs on / between grid points / beyond the grid / below the second point, with and without uncertainties, "
         "sampled physical (g, Q[S-1]) pairs converted to each variant's functions; the full 9-tuple is compared; "
         "non-trivial = removed component non-zero; distinct by input hash")
